@@ -720,7 +720,7 @@ func init() {
 		if r.eng.cfg.PoolDrops && r.choose(2, "pool-drop") == 1 {
 			return invDone, nil
 		}
-		vc := make([]int32, maxThreads)
+		vc := make([]int32, r.maxT)
 		copy(vc, c.t.vc)
 		c.t.vc[c.t.id]++
 		pm.items = append(pm.items, poolItem{x, vc})
@@ -733,7 +733,16 @@ func init() {
 			return invYield, nil
 		}
 		pm := r.poolOf(p.s)
-		k := r.choose(len(pm.items)+1, "pool-get")
+		var k int
+		if r.eng.cfg.PoolOrder == "lifo" {
+			// (scale runs: the pool hands back its newest item and drops nothing)
+			k = len(pm.items) - 1
+			if k < 0 {
+				k = 0
+			}
+		} else {
+			k = r.choose(len(pm.items)+1, "pool-get")
+		}
 		if k < len(pm.items) {
 			it := pm.items[k]
 			pm.items = append(append([]poolItem(nil), pm.items[:k]...), pm.items[k+1:]...)
